@@ -52,7 +52,7 @@ LEVEL_NOTE = ("Sampled. 20 open finding signatures (about 12 root causes) "
               "are listed; "
               "cases that hit a resolver crash end there, the rest of the "
               "space is searched normally.")
-REGISTERED = False
+REGISTERED = True
 NONTRIVIAL_FLOOR = {"quick": 500, "thorough": 5000}
 
 DELEGATING_ACCESSORS = {"exec": "is_executable", "has_filename": "has_filename",
@@ -61,9 +61,10 @@ DELEGATING_ACCESSORS = {"exec": "is_executable", "has_filename": "has_filename",
 
 # classes listed as open findings are reported after any other discrepancy of
 # the same case (they are still reported): the search continues behind them
-REPORT_LAST = tuple(
-    "C14/preview-%s-delegates-to-original-tree-at-preview-path" % a
-    for a in DELEGATING_ACCESSORS.values()) + (
+SHA1_NEWLY_VERSIONED = ("C14/preview-asks-original-tree-about-file-versioned-"
+                        "by-this-transform")
+REPORT_LAST = (
+    SHA1_NEWLY_VERSIONED,
     "C14/preview-wrong-at-path-reused-after-deletion",
     "C14/preview-get_file-looks-up-new-file-id-in-original-tree",
     "C14/git-directory-move-leaves-children-at-old-index-paths",
@@ -81,7 +82,8 @@ SIG_ATTR = {
 GIT_DIR_MOVE = "C14/git-directory-move-leaves-children-at-old-index-paths"
 
 
-def compare(facts, pv, av, fmt="2a", git_dir_move=False, old_paths=()):
+def compare(facts, pv, av, fmt="2a", git_dir_move=False, old_paths=None):
+    old_paths = old_paths or {}
     """-> [(signature, detail)] preview view vs applied view."""
     out = []
     tag = ":git" if fmt == "git" else ""
@@ -94,8 +96,12 @@ def compare(facts, pv, av, fmt="2a", git_dir_move=False, old_paths=()):
             elif p not in av:
                 out.append(("C14/preview-lists-path-missing-after-apply:" +
                              cls + tag, [p, pv[p]]))
-            elif p in old_paths:
-                # a path of the original tree that the preview dropped
+            elif p in old_paths and (
+                    av[p].get("has_filename") is False or
+                    (av[p].get("text"), av[p].get("target")) ==
+                    (old_paths[p].get("text"), old_paths[p].get("target"))):
+                # an entry of the original tree, still listed at its old
+                # path, that the preview dropped
                 out.append((
                     "C14/applied-tree-keeps-old-path-missing-from-preview" +
                     tag, [p, av[p]]))
@@ -122,11 +128,11 @@ def compare(facts, pv, av, fmt="2a", git_dir_move=False, old_paths=()):
                 out.append((
                     "C14/preview-wrong-at-path-reused-after-deletion",
                     [p, a, x, y]))
-            elif a in DELEGATING_ACCESSORS and deleg.get(a) and cls in (
-                    "moved", "new", "newly-versioned"):
-                out.append((
-                    "C14/preview-%s-delegates-to-original-tree-at-preview-"
-                    "path" % DELEGATING_ACCESSORS[a], [p, cls, x, y]))
+            elif a in ("sha1", "stored_kind") and deleg.get(a) and \
+                    cls == "newly-versioned":
+                # what is left of F31a after its repair (82bdfa0): the original
+                # tree is asked for the hash of a file it does not version
+                out.append((SHA1_NEWLY_VERSIONED, [p, cls, x, y]))
             elif a in ("text", "target") and cls == "newly-versioned":
                 out.append((
                     "C14/preview-get_file-looks-up-new-file-id-in-original-"
@@ -259,7 +265,7 @@ def check_case(case, env, build):
             "C14/applied-tree-unreadable-after-apply:%s%s" % (
                 type(e).__name__, ":git" if case["fmt"] == "git" else ""),
             [case, kinds, str(e)[:200]])
-    found = compare(facts, pv, av, case["fmt"], git_dir_move, set(v0))
+    found = compare(facts, pv, av, case["fmt"], git_dir_move, v0)
     moved_dir = any(c == "moved" and pv[p]["entry_kind"] == "directory" and
                     any(q.startswith(p + "/") for q in pv)
                     for p, c in classes.items())
